@@ -31,7 +31,8 @@ def _really_malformed(t):
 
 
 MALFORMED = [t for t in MALFORMED if _really_malformed(t)]
-VMODES = ["plain", "o-json", "o-yaml", "s-json", "s-yaml", "s-junit", "s-sarif", "payload", "payload-s", "stdin", "dirs", "verbose"]
+VMODES = ["plain", "o-json", "o-yaml", "s-json", "s-yaml", "s-junit", "s-sarif", "payload", "payload-s", "stdin", "dirs", "verbose",
+          "mixed-fd", "mixed-df", "mixed-fd-s", "mixed-df-s"]
 
 
 def instance(rng):
@@ -140,6 +141,14 @@ def argv_for(mode, rpaths, dpaths, rtexts, dtexts, sdir):
         return base + rargs, dtexts[0]
     if mode == "dirs":
         return base + ["-r", os.path.join(sdir, "rules"), "-d", os.path.join(sdir, "data")], None
+    if mode.startswith("mixed-"):
+        # explicit files and directories side by side in one option list: the first file by path, the others through a directory
+        # (`--rules rule1.guard --rules ./rules-dir` is the help text's own example), in both orders
+        if len(rpaths) < 2 and len(dpaths) < 2:
+            return None
+        rr = (["-r", rpaths[0], "-r", os.path.join(sdir, "rulesrest")] if "fd" in mode else ["-r", os.path.join(sdir, "rulesrest"), "-r", rpaths[0]]) if len(rpaths) >= 2 else rargs
+        dd = (["-d", dpaths[0], "-d", os.path.join(sdir, "datarest")] if "fd" in mode else ["-d", os.path.join(sdir, "datarest"), "-d", dpaths[0]]) if len(dpaths) >= 2 else dargs
+        return base + rr + dd + (["--structured", "-S", "none", "-o", "json"] if mode.endswith("-s") else []), None
     raise ValueError(mode)
 
 
@@ -156,6 +165,13 @@ def write_scenario(sdir, rtexts, dtexts, dexts):
         p = os.path.join(sdir, "data", "d%d%s" % (i, dexts[i]))
         open(p, "w").write(t)
         dp.append(p)
+    # all files but the first once more, in directories of their own (the mixed-* modes)
+    os.makedirs(os.path.join(sdir, "rulesrest"))
+    os.makedirs(os.path.join(sdir, "datarest"))
+    for i, t in enumerate(rtexts[1:], 1):
+        open(os.path.join(sdir, "rulesrest", "r%d.guard" % i), "w").write(t)
+    for i, t in enumerate(dtexts[1:], 1):
+        open(os.path.join(sdir, "datarest", "d%d%s" % (i, dexts[i])), "w").write(t)
     return rp, dp
 
 
@@ -199,6 +215,8 @@ def shard(ctx):
                 continue
             rp, dp = write_scenario(sdir, rtexts, dtexts, dexts)
             modes = VMODES if not ctx.quick else rng.sample(VMODES, 5)
+            if ctx.quick and (len(rk) >= 2 or len(dk) >= 2) and not any(m_.startswith("mixed-") for m_ in modes):
+                modes = modes + [rng.choice(["mixed-fd", "mixed-df", "mixed-fd-s", "mixed-df-s"])]
             for mode in modes:
                 av = argv_for(mode, rp, dp, rtexts, dtexts, sdir)
                 if av is None:
